@@ -44,7 +44,7 @@ class NetWorld(World):
     NAME = "net"
     LEVEL = "fault_enumeration"
     SIM_TIME_UNIT = "operations"
-    RUNS = {"quick": 4000, "thorough": 100000}
+    RUNS = {"quick": 6000, "thorough": 150000}
     WALL_CAP = {"quick": 900, "thorough": 3300}
     RULE = (
         "one run = up to max_steps public operations (construct / combine / add / "
